@@ -27,14 +27,44 @@ impl Drop for Scratch {
     fn drop(&mut self) { let _ = std::fs::remove_dir_all(&self.0); }
 }
 
+/// name of the input file of a file-level call: plain FASTA, or (VERIF_INPUT_GZM set) a gzip file of several members
+pub fn in_name() -> &'static str { if std::env::var("VERIF_INPUT_GZM").is_ok() { "in.fa.gz" } else { "in.fa" } }
+
 pub fn write_fasta(path: &str, recs: &[Vec<u8>]) {
-    let mut s: Vec<u8> = Vec::new();
-    for (i, r) in recs.iter().enumerate() {
-        s.extend_from_slice(format!(">r{}\n", i).as_bytes());
-        s.extend_from_slice(r);
-        s.push(b'\n');
+    let ser = |from: usize, to: usize| -> Vec<u8> {
+        let mut s: Vec<u8> = Vec::new();
+        for (i, r) in recs.iter().enumerate().skip(from).take(to - from) {
+            s.extend_from_slice(format!(">r{}\n", i).as_bytes());
+            s.extend_from_slice(r);
+            s.push(b'\n');
+        }
+        s
+    };
+    if path.ends_with(".gz") {
+        // three members (records split between them) and an empty one, as `cat a.gz b.gz c.gz` / bgzip produce
+        use std::io::Write;
+        let n = recs.len();
+        let cuts = [0, (n + 2) / 3, (2 * n + 2) / 3, n];
+        let mut out: Vec<u8> = Vec::new();
+        for w in cuts.windows(2) {
+            let mut e = flate2::write::GzEncoder::new(Vec::new(), flate2::Compression::default());
+            e.write_all(&ser(w[0], w[1])).unwrap();
+            out.extend(e.finish().unwrap());
+        }
+        let e = flate2::write::GzEncoder::new(Vec::new(), flate2::Compression::default());
+        out.extend(e.finish().unwrap());
+        std::fs::write(path, out).unwrap();
+    } else {
+        std::fs::write(path, ser(0, recs.len())).unwrap();
     }
-    std::fs::write(path, s).unwrap();
+}
+
+/// run `f` with the input written as a multi-member gzip file; a witness gets the container noted
+pub fn with_gzm(f: impl FnOnce() -> Option<Vec<(String, String)>>) -> Option<Vec<(String, String)>> {
+    std::env::set_var("VERIF_INPUT_GZM", "1");
+    let w = f();
+    std::env::remove_var("VERIF_INPUT_GZM");
+    w.map(|mut w| { w.push(("input_gzm".into(), "the input is a gzip file of several members (records split between them) plus an empty member".into())); w })
 }
 
 /// When VERIF_STALE_OUTPUT is set, leave a longer result of an "earlier run" at the output path before the call
